@@ -165,8 +165,8 @@ CONFIG = {
                  "distinct = hash of the case."),
         "jobs": [{"name": "context", "test": "TestC16Context", "checks": {"quick": 24000, "thorough": 8000000}, "shards": {"quick": 8, "thorough": 16}, "env": {"VKIT_PROFILE": "C16"}},
                  # construction-time / value semantics without a bubble, under both toolchains (context.Cause, AfterFunc and friends differ between Go releases)
-                 {"name": "context_static", "test": "TestC16Static", "checks": {"quick": 20000, "thorough": 2000000}, "shards": {"quick": 2, "thorough": 8}, "stall_sig": "C16/stall"},
-                 {"name": "context_static_go_default", "go": "default", "test": "TestC16Static", "checks": {"quick": 20000, "thorough": 2000000}, "shards": {"quick": 2, "thorough": 8}, "stall_sig": "C16/stall"}],
+                 {"name": "context_static", "test": "TestC16Static", "checks": {"quick": 20000, "thorough": 400000}, "shards": {"quick": 2, "thorough": 8}, "stall_sig": "C16/stall"},
+                 {"name": "context_static_go_default", "go": "default", "test": "TestC16Static", "checks": {"quick": 20000, "thorough": 400000}, "shards": {"quick": 2, "thorough": 8}, "stall_sig": "C16/stall"}],
     },
     "C17": {
         "rule": ("rapid engine over bigbuff.Worker in a synctest bubble: stepper rules do (launched Do), done(holder), exit(instance gate: the worker function returns after it saw stop), race steps "
